@@ -5,11 +5,15 @@ import time
 import driver
 
 
-def run_stages(prop, argv, stages_for_tier, level="model_checking", assumptions=(), rule="", budget=None):
+def run_stages(prop, argv, stages_for_tier, level="model_checking", assumptions=(), rule="", budget=None, extra=None, replay_extra=None):
     """stages_for_tier(tier) -> list of dict(label, harness, variant, configs, common=[], share=float, env=None)
     `share` is the fraction of the tier's wall budget the stage may use at most."""
     tier, seed, replay = driver.tier_and_seed(argv)
     if replay:
+        if replay_extra:
+            rc = replay_extra(replay)
+            if rc is not None:
+                return rc
         return driver.replay_sched(replay)
     t0 = time.time()
     budget = budget or {"quick": 110.0, "thorough": 1500.0}
@@ -20,6 +24,16 @@ def run_stages(prop, argv, stages_for_tier, level="model_checking", assumptions=
     tot = {"executions": 0, "points": 0, "choices": 0, "traces": 0, "configs": 0, "skipped": 0, "incomplete": 0}
     samples = []
     exhaustive = True
+    extra_cov = None
+    if extra:
+        ev, ei, extra_cov = extra(tier, total * 0.3)
+        violations.extend(ev)
+        infra.extend(ei)
+        tot["traces"] += extra_cov.get("states", 0)
+        tot["points"] += extra_cov.get("transitions", 0)
+        tot["executions"] += extra_cov.get("transitions", 0)
+        if not extra_cov.get("exhaustive", True):
+            exhaustive = False
     for st in stages:
         exe = driver.harness(st["harness"], st["variant"])
         left = total - (time.time() - t0)
@@ -31,6 +45,8 @@ def run_stages(prop, argv, stages_for_tier, level="model_checking", assumptions=
         for r in agg["violations"]:
             violations.append(driver.sched_violation(prop, r, st["variant"], st["harness"]))
         infra.extend(agg["infra"])
+        if st.get("post"):
+            violations.extend(st["post"](res))
         tot["executions"] += agg["executions"]
         tot["points"] += agg["points"]
         tot["choices"] += agg["choices"]
@@ -67,4 +83,6 @@ def run_stages(prop, argv, stages_for_tier, level="model_checking", assumptions=
         "exhaustive": exhaustive,
         "stages": cov_stages,
     }
+    if extra_cov is not None:
+        coverage["sequential_part"] = extra_cov
     return driver.finish(prop, tier, seed, level, coverage, t0, violations, list(assumptions), infra)
